@@ -28,6 +28,7 @@ ASSUMPTIONS = [
 ]
 SHARDS = {"quick": 8, "thorough": 16}
 MIN_REACH = {
+    "runs_on_a_table_whose_time_stamp_did_not_advance": {"quick": 40, "thorough": 700},
     "samplers_whose_table_is_named_by_a_path_object": {"quick": 15, "thorough": 250},
     "samplers_made_by_the_label_decorator": {"quick": 20, "thorough": 300},
     "runs_of_more_than_a_thousand_samples_through_a_pool": {"quick": 2, "thorough": 30},
@@ -211,6 +212,11 @@ def run_case(ctx, case):
                 if isinstance(v, LoggingGen):
                     v.rng = rng
         first = False
+        if data_name is not None and len(case["runs"]) % 2 == 0 and os.path.exists(data_name):
+            # the table's time stamp does not advance between the runs of this history (coarse resolution, a table put
+            # back with preserved times): what is on disk is what counts, whatever its time stamp says
+            os.utime(data_name, (1.7e9, 1.7e9))
+            ctx.count("runs_on_a_table_whose_time_stamp_did_not_advance")
         n = run["n"]
         override = None
         allowed = {a: list(POOLS[a]) for a in args}
